@@ -412,7 +412,20 @@ pub fn run_check(prop: &str, tier: &str) -> i32 {
                     None
                 }
             });
-            schedprops::run_programs(progs, bound, 3000, budget * 0.1, &schedprops::judge_linearizable, Some(check_limit), &["C13"], &mut report);
+            schedprops::run_programs(progs, bound, 3000, budget * 0.08, &schedprops::judge_linearizable, Some(check_limit), &["C13"], &mut report);
+            // the same oracle with a scheduling point after every update of the usage counter: a thread can be
+            // parked between two counter updates of one call (keys in pairwise distinct hash buckets)
+            let ptprogs = concprogs::limit_point_programs(thorough);
+            let ptlimit = ptprogs[0].cfg.max_memory.unwrap();
+            let check_pt: schedprops::DecisionCheck = std::sync::Arc::new(move |store: &std::sync::Arc<feoxdb::FeoxStore>| {
+                let usage = store.memory_usage();
+                if usage > ptlimit {
+                    Some(format!("C13: memory_usage() = {usage} exceeds the limit {ptlimit} between two updates of the usage counter"))
+                } else {
+                    None
+                }
+            });
+            schedprops::run_programs(ptprogs, bound, 3000, budget * 0.08, &schedprops::judge_linearizable, Some(check_pt), &["C13"], &mut report);
             let mut pairs = c07::programs(Cfg::memory(), false);
             pairs.retain(|p| p.name.starts_with("pair-"));
             schedprops::run_programs(pairs, bound, 3000, budget * 0.1, &schedprops::judge_linearizable, Some(check), &["C13"], &mut report);
@@ -578,6 +591,7 @@ pub fn all_sched_programs() -> Vec<schedprops::Program> {
         v.extend(c08::close_programs(thorough));
         v.extend(concprogs::scan_programs(thorough));
         v.extend(concprogs::limit_programs(thorough));
+        v.extend(concprogs::limit_point_programs(thorough));
         v.extend(concprogs::sweep_programs(thorough));
         v.extend(concprogs::warm_programs(thorough));
     }
